@@ -58,6 +58,21 @@ Proof.
   split; [reflexivity|]. split; intros H; rewrite H; cbn; auto.
 Qed.
 
+Lemma late_w : forall (ss : sess) (k : pend) (a : answer),
+  stack (ag ss) = [] -> s_late k a ss = ss.
+Proof.
+  intros [a0 o c n ev] k a; cbn [ag]. intros H. unfold s_late, late, fire; cbn [ag owner owner_act next_id events].
+  rewrite H. destruct (on_complete a0); reflexivity.
+Qed.
+
+Lemma late_after_abort_w : forall (ss : sess) (k : pend) (a : answer),
+  owner_act ss = ANone -> s_late k a (s_abort ss) = s_abort ss.
+Proof.
+  intros ss k a H. apply late_w. destruct ss as [a0 o c n ev]; cbn [owner_act] in H; subst c.
+  unfold s_abort, fire, abort; cbn [ag owner owner_act next_id events].
+  destruct (on_complete a0) eqn:E; cbn; try reflexivity; rewrite ?E; reflexivity.
+Qed.
+
 Lemma nested_w : forall (ss : sess) (a : answer),
   on_complete (ag ss) = true -> on_complete (step false (ag ss) a) = false -> owner_act ss <> ANone ->
   events (s_reply a ss) =
@@ -83,3 +98,9 @@ Proof.
   intros [a o c n ev] act S coll M0 H H1 H2 H3; cbn [ag] in *. unfold s_start; cbn [ag owner owner_act next_id events].
   rewrite H. cbn [ag]. exact (complete_w S coll a M0 H1 H2 H3).
 Qed.
+
+Lemma uid_consts_w :
+  ALL_DEVICES_UID = UID_BROADCAST_U64 /\ UID_BROADCAST_U64 = UID_ALL_MANUFACTURERS * TWO32 + UID_ALL_DEVICES /\
+  TWO48 = UID_BROADCAST_U64 + 1 /\ UID_ALL_MANUFACTURERS = 65535 /\ UID_ALL_DEVICES = 4294967295 /\
+  UID_SIZE = 6 /\ 281474976710655 = UID_BROADCAST_U64.
+Proof. repeat split. Qed.
